@@ -27,12 +27,9 @@ def errnos_for(op):
 
 
 def names_file(stderr, path, root):
-    """does the message name the failing path? any trailing part of the path (>= 1 component), delimited; the
-    applied-patches file may be called by its role"""
+    """does the message name the failing path? any trailing part of the path (>= 1 component), delimited"""
     rel = os.path.relpath(path, root) if path.startswith('/') else path
     s = stderr.decode(errors='replace')
-    if rel.startswith('.pc') and rel.rstrip('/') in ('.pc', '.pc/applied-patches') and re.search(r'applied.patches', s):
-        return True
     # a directory operation made on behalf of an output file: naming that file (a path below the directory) is naming enough
     for quoted in re.findall(r'"([^"]+)"', s):
         q = os.path.normpath(os.path.join(root, quoted))
@@ -160,7 +157,7 @@ def run(tier, seed):
                    'rejects) x --backup {always,never} x driver {sequential, parallel with the serial schedule lowest-worker-first, highest-worker-first}: a fault-free run counts the n mutating libc calls '
                    '(open for writing, write, unlink, mkdir, rmdir, fchmod, ...), then one run per k in 1..n and per applicable errno (EIO; ENOSPC for write/mkdir/open; EACCES for open/unlink) with exactly '
                    'that call failing; short writes at every write for a quarter (thorough: all) of the workloads. Oracle when the fault fired: exit class non-zero and not a crash; stderr names the failing '
-                   'path (any trailing part of it, or "applied patches"); nothing is appended to applied-patches unless the tree equals the model after exactly those patches; a short write changes nothing. '
+                   'path (any trailing part of it); nothing is appended to applied-patches unless the tree equals the model after exactly those patches; a short write changes nothing. '
                    'distinct_nontrivial = runs in which the injected fault was reached')
     res.assumptions = ['faults are injected at the libc boundary of the dynamically linked binary', 'parallel runs are serialised by the cooperative scheduler so that "the k-th call" is reproducible']
     if acc.nontrivial < 500:
